@@ -1,5 +1,6 @@
 import Mercure.Model.Subscribe
 import Mercure.Lemmas.Auth
+import Mercure.Lemmas.Template
 /-
   C02 — Updates are dispatched only for publishers authorized for every topic.
   (The "no effect at all" half — state unchanged on refusal — is `Hub` level: Props/C02 imports
@@ -134,6 +135,30 @@ example : ∃ u, publish {} (fun t x => t == x) (fun _ => some { mercure := { pu
       formOk := true, topics := [['z'], ['a']], retryStr := ['7'], priv := true, data := [], id := [], type := [] } = .accepted u := by
   exact ⟨_, rfl⟩
 
+/-! ### with the template library as a definition (Model/Template): the exact publishing scope of a claim -/
+
+/-- **The scope of a `literal{var}` claim, as bytes**: a publisher whose only claim parses to a literal followed by
+    one simple variable may publish (privately, or without version-7 compatibility) on the claim text itself and on
+    exactly the topics made of the literal followed by unreserved characters, commas and `%XX` triplets — never on
+    one that continues with `/`, `?`, `#`, `:`, a space or a non-ASCII character. -/
+theorem scope_of_literal_var_claim (sel p : Str) (v : Template.VarSpec) (hv : v.explode = false)
+    (hp : Template.parse sel = some [.lit p, .expr .simple [v]]) (hs : sel ≠ ['*'])
+    (hb : containsChar sel '{' = true) (t : Str) :
+    canDispatch (matchSpec Template.oracle) [t] [sel] = true ↔ (t = sel ∨ ∃ w, t = p ++ w ∧ Template.ClassStr w) := by
+  rw [canDispatch_iff]
+  have hne : (sel == ['*']) = false := by simpa using hs
+  simp only [List.all_cons, List.all_nil, List.any_cons, List.any_nil, Bool.and_true, Bool.or_false,
+    matchSpec, matchUncached, Template.oracle, Template.valid, Template.expands, hp, hb, hne,
+    Option.isSome_some, Bool.true_and, Bool.false_or]
+  have h := Template.lit_var_matches_iff p v hv t
+  unfold Template.matchTemplate
+  rw [Bool.or_eq_true, beq_iff_eq, h]
+
+/-- non-vacuity: the claim `https://example.com/books/{id}` has that shape -/
+example : Template.parse "https://example.com/books/{id}".toList
+      = some [.lit "https://example.com/books/".toList, .expr .simple [{ name := "id".toList }]]
+    ∧ containsChar "https://example.com/books/{id}".toList '{' = true := by decide +kernel
+
 end Mercure.C02
 
 #print axioms Mercure.C02.canDispatch_iff
@@ -143,3 +168,4 @@ end Mercure.C02
 #print axioms Mercure.C02.publish_accepted_shape
 #print axioms Mercure.C02.compat_never_private
 #print axioms Mercure.C02.empty_claim_refused
+#print axioms Mercure.C02.scope_of_literal_var_claim
